@@ -34,13 +34,15 @@ def gen_case(rng):
     t0 = rng.choice([0, 0, 5, 1000])
     ops = []
     clock = t0
+    pinned = [t0]
     for seg in range(rng.randint(1, 3)):
         for n in compositions(rng.randint(maxd + 1, 40 + maxd), rng, maxd + 1):
             ops.append(["get", n]); clock += n
         if seg < 2 and rng.random() < 0.7:
             k = rng.choice(["set_time", "reset_start", "add_time"])
             if k == "set_time":
-                t = rng.randint(0, 3000); ops.append([k, t]); clock = t
+                # also back to exactly a time the array was pinned at before (its construction time, an earlier set_time): a replay
+                t = rng.choice([rng.randint(0, 3000), t0, pinned[-1], pinned[-1]]); ops.append([k, t]); clock = t; pinned.append(t)
             elif k == "add_time":
                 t = rng.randint(0, 50); ops.append([k, t]); clock += t
             else:
